@@ -104,6 +104,7 @@ type Obligation struct {
 }
 
 type pathEnd struct{ reason string }
+type altDropped struct{}
 type specAbort struct{ reason string }
 type Unsupported struct{ Msg string }
 
@@ -161,6 +162,8 @@ type State struct {
 	redirect  map[string]*ssa.Function
 	callDepth int
 	rsSites   map[string]bool
+	sizeMemo  map[types.Type]int
+	guard     *term.Node // guard of the alternative being processed by mapMux
 }
 
 type inputVar struct {
@@ -491,6 +494,9 @@ func pcLen(p *pcList) int {
 // ---------------------------------------------------------------- obligations
 
 func (st *State) addOblig(kind, label string, cond *term.Node) {
+	if st.guard != nil && kind != "cover" {
+		cond = st.b.Implies(st.guard, cond)
+	}
 	if cond == st.b.True && kind != "cover" {
 		st.res.TrivialVCs++
 		return
@@ -506,8 +512,76 @@ func (st *State) addOblig(kind, label string, cond *term.Node) {
 			st.res.CoverHit[label] = true
 			return
 		}
+		st.obligs = append(st.obligs, Obligation{Kind: kind, Label: label, Pos: st.where(), PC: st.pc, Cond: cond})
+		return
+	}
+	// known findings split the obligation: outside the finding's predicate it must hold,
+	// inside it is expected to fail (and is reported as KNOWN-FINDING when it does).
+	for i := range st.inst.Known {
+		kf := &st.inst.Known[i]
+		if !strings.Contains(label, kf.Label) {
+			continue
+		}
+		p := st.knownPred(kf)
+		if p == nil {
+			continue
+		}
+		st.obligs = append(st.obligs, Obligation{Kind: "known", Label: kf.ID + "|" + label, Pos: st.where(), PC: st.pc, Cond: st.b.Implies(p, cond)})
+		cond = st.b.Implies(st.b.BNot(p), cond)
+		if cond == st.b.True {
+			return
+		}
 	}
 	st.obligs = append(st.obligs, Obligation{Kind: kind, Label: label, Pos: st.where(), PC: st.pc, Cond: cond})
+}
+
+// knownPred builds the predicate of a known finding over the harness inputs
+// (nil if one of its inputs does not exist on this path).
+func (st *State) knownPred(kf *KnownPred) *term.Node {
+	b := st.b
+	p := b.True
+	for _, c := range kf.Constraints {
+		var v *term.Node
+		for _, iv := range st.inputVars {
+			if iv.ID == c.Input {
+				v = iv.Node
+			}
+		}
+		if v == nil {
+			if cv, ok := st.inst.Config[c.Input]; ok && strings.HasPrefix(c.Input, "") {
+				v = b.Const(64, uint64(int64(cv)))
+			} else {
+				return nil
+			}
+		}
+		k := b.Const(v.W, uint64(c.Value))
+		var t *term.Node
+		switch c.Op {
+		case "==":
+			t = b.Eq(v, k)
+		case "!=":
+			t = b.Ne(v, k)
+		case "<":
+			t = b.Slt(v, k)
+		case "<=":
+			t = b.Sle(v, k)
+		case ">":
+			t = b.Slt(k, v)
+		case ">=":
+			t = b.Sle(k, v)
+		default:
+			return nil
+		}
+		if v.W == 0 {
+			if c.Op == "==" {
+				t = b.Eq(v, b.Bool(c.Value != 0))
+			} else {
+				t = b.Ne(v, b.Bool(c.Value != 0))
+			}
+		}
+		p = b.BAnd(p, t)
+	}
+	return p
 }
 
 // flushObligs sends buffered obligations (grouped by identical path condition) to the pool.
@@ -521,7 +595,8 @@ func (st *State) flushObligs() {
 	for i < len(obs) {
 		j := i
 		var grp []Obligation
-		for j < len(obs) && obs[j].PC == obs[i].PC && obs[j].Kind != "cover" && obs[i].Kind != "cover" && len(grp) < st.inst.VCBatch {
+		single := func(k string) bool { return k == "cover" || k == "known" }
+		for j < len(obs) && obs[j].PC == obs[i].PC && !single(obs[j].Kind) && !single(obs[i].Kind) && len(grp) < st.inst.VCBatch {
 			grp = append(grp, obs[j])
 			j++
 		}
